@@ -157,8 +157,19 @@ class C14(Prop):
             # directed family: two versions whose (mtime, size) pairs collide under an ambiguous encoding of the
             # validator - concatenation without separator ("X.0"+"12" == "X.01"+"2") or sum (mtime+1 s, size-1);
             # the random history generator reaches such pairs about once in 10^6 runs only
-            kind = t.choice(["concat", "concat", "sum"])
+            kind = t.choice(["concat", "concat", "sum", "digits", "digits"])
             s2 = t.choice([2, 3, 7, 24])
+            if kind == "digits":
+                # a validator that is a weak checksum of the decimal (mtime, size) string (byte sum, position-weighted byte
+                # sum, digit sum): same size, modification times whose digits differ by +1 -2 +1 on neighbours (81 s, 810 s),
+                # by a transposition (9 s, 90 s, 99 s) or by +1 -1 (9 s, 18 s, 27 s) - three starting points per plan
+                d = t.choice([81, 81, 810, 8100, 9, 90, 99, 18, 27, 162]) * 1000
+                ops = []
+                for k in range(3):
+                    ops += [{"op": "req", "file": 0, "adv": t.choice([0, 1000, 7000, 13000, 101000]), "alias": t.draw(3), "asgi": t.draw(2), "inm": "none", "ims": False, "j": None},
+                            {"op": t.choice(["rewrite_same_size", "touch"]), "file": 0, "adv": d},
+                            {"op": "req", "file": 0, "adv": t.choice([0, 0, 300]), "alias": t.draw(3), "asgi": t.draw(2), "inm": t.choice(["strong", "weak"]), "ims": False, "j": 2 * k}]
+                return {"app": app, "iface": iface, "nfiles": 1, "frac": t.choice(FRACS), "sizes": [t.choice([5, 24, 100])], "zerocopy": False, "ops": ops, "family": "validator-collision"}
             if kind == "concat":
                 frac, d = t.choice([(0, 10), (500, 10), (250, 1)])
                 s1 = int("1" + str(s2))
